@@ -7,7 +7,8 @@ IMPLEMENTS IT. (2) For every statement the interface comments make but the desig
 key in an artifact file is never replaced, memory = directory for all known entities, chains stay intact) TLC must FIND the
 counterexample - the model is not vacuous about them. (3) `driver dbapi` executes every operation sequence up to a depth, and
 seeded random walks, on the real FsDb over the simulated filesystem; TLC judges every step with
-<<post, result>> \\in DbApi!Apply(pre, op) (DbApiTrace.tla)."""
+<<post, result>> \\in DbApi!Apply(pre, op) (DbApiTrace.tla). (2b) Apalache discharges an inductive invariant (DbApiInd.tla): the
+invariants hold for histories of any length, not only up to the TLC bound."""
 import os, re
 from .common import CheckError, read_ndjson, load_json, NCPU
 
@@ -39,6 +40,27 @@ def run(ctx, replay=None):
         if rc == 0:
             raise CheckError("DbApi.tla: TLC found no counterexample to %s; the model no longer shows the documented deviation" % name)
         refuted[name] = len(re.findall(r"^State \d+:", out, re.M))
+    # (2b) histories of ANY length: Apalache discharges an inductive invariant (DbApiInd.tla) that implies the invariants above -
+    #      base case, inductive step, implication; and must refute three statements that would make the proof vacuous
+    import subprocess, shutil
+    apa = {}
+    obligations = [("Init", "IndInv", 0, True), ("IndInit", "IndInv", 1, True), ("IndInit", "Implied", 0, True),
+                   ("IndInit", "NoSuchState", 0, False), ("IndInit", "NoFailingStep", 1, False), ("IndInit", "PromiseAll", 1, False)]
+    for init, inv, length, must_hold in obligations:
+        outd = ctx.path("apa-%s-%s" % (init, inv))
+        r = subprocess.run(["timeout", "1800", "apalache-mc", "check", "--cinit=CInit", "--init=" + init, "--inv=" + inv, "--length=%d" % length,
+                            "--out-dir=" + outd, "DbApiInd.tla"], cwd=d, capture_output=True, text=True)
+        shutil.rmtree(outd, ignore_errors=True)
+        ok = "The outcome is: NoError" in r.stdout
+        err = "The outcome is: Error" in r.stdout
+        if not ok and not err:
+            raise CheckError("apalache-mc could not decide %s / %s (exit %d):\n%s" % (init, inv, r.returncode, "\n".join((r.stdout + r.stderr).splitlines()[-25:])))
+        if must_hold and not ok:
+            raise CheckError("Apalache refutes the proof obligation init=%s inv=%s length=%d of DbApiInd.tla" % (init, inv, length))
+        if not must_hold and not err:
+            raise CheckError("Apalache no longer refutes %s: the inductive-invariant proof of DbApiInd.tla would be vacuous" % inv)
+        apa["%s => %s (length %d)" % (init, inv, length)] = "holds" if ok else "refuted, as it must be"
+        ctx.tlc_cmds.append("apalache-mc check --cinit=CInit --init=%s --inv=%s --length=%d DbApiInd.tla" % (init, inv, length))
     # (3) the real code
     depth = 2 if ctx.quick else 3
     walks = 2000 if ctx.quick else 60000
@@ -69,7 +91,7 @@ def run(ctx, replay=None):
            "distinct_nontrivial": max(s["distinct_states"] for s in stats),
            "rule": "one evaluation = one call of the database interface on the real FsDb (simulated filesystem) judged by TLC against DbApi!Apply; "
                    "distinct_nontrivial = distinct projected states reached by the exhaustive part",
-           "model_checking": mc, "refuted_as_expected": refuted, "by_operation": by_op, "by_result": by_res,
+           "model_checking": mc, "refuted_as_expected": refuted, "inductive_invariant_apalache": apa, "by_operation": by_op, "by_result": by_res,
            "samples": [{"op": l["op"], "result": l["result"], "written": l["written"]} for l in lines[:: max(1, len(lines) // 4)][:4]],
            "exhaustive_depth": depth, "random_walks": walks}
     return ctx.finish("model_checking", cov, ["supplementary: not one of the listed properties", "keys are numbered in the order in which they first appear",
